@@ -3,6 +3,7 @@ import CkbVerif.Model.Indexer
 import CkbVerif.Lemmas.IndexerWF
 import CkbVerif.Model.RichIndexer
 import CkbVerif.Lemmas.RichIndexer
+import CkbVerif.Model.RichFilters
 
 /-! Line-protocol driver for C18 (protocol: see harness/hnode/src/c18.rs). `ckbmodel C18`. -/
 namespace CkbVerif.Driver.C18
@@ -161,7 +162,8 @@ def strLe (a b : String) : Bool := !(b < a)
 
 def step (st : St) (ts : List String) : St × String :=
   match ts with
-  | ["config", k, i] =>
+  | "config" :: k :: i :: _ =>
+    -- further tokens (`b<n> c<n>`: custom filters of the rich stream) do not concern this indexer
     match parseNat? k, parseNat? i with
     | some k, some i => ({ st with keep := k, interval := i }, "ok")
     | _, _ => (st, "bad-op")
@@ -296,8 +298,8 @@ def dumpRows (db : DB) : List String :=
   (db.ins.map fun i => s!"I/{i.outputId}/{i.consumedTx}/{i.index}") ++
   (db.scripts.map fun s => s!"S/{showScript s.script}")
 
-/-- page budget of the ungrouped `get_transactions` walk (its cursor can cycle, see the model) -/
-def maxTxPages : Nat := 40
+/-- page budget of the ungrouped `get_transactions` walk -/
+def maxTxPages : Nat := 120
 
 /-- ungrouped answer: the pages of the walk (rows with their cell in exact mode, transaction only
 otherwise), then the whole answer of one unlimited call grouped per transaction with sorted cells -/
@@ -307,13 +309,23 @@ def showUngrouped (db : DB) (k : Bool) (m : Mode) (q : Script) (f : Filter) (o :
   "txs " ++ showPages (pages.map (·.map (if m = .exact then showRTxRow else showRTxRowThin))) ++ " = " ++
     joinOr "," (full.map showRTxGroup)
 
-def step (db : DB) (ts : List String) : DB × String :=
+structure RSt where
+  db : DB := {}
+  bf : Nat := 0
+  cf : Nat := 0
+
+/-- `b<n>` / `c<n>` among the extra tokens of `config` -/
+def filterId (pre : Char) (ts : List String) : Nat :=
+  match ts.find? (fun t => t.front = pre) with
+  | some t => ((t.drop 1).toString.toNat?).getD 0
+  | none => 0
+
+def stepDb (bf cf : Nat) (db : DB) (ts : List String) : DB × String :=
   match ts with
-  | ["config", _, _] => (({} : DB), "ok")
   | "append" :: num :: hash :: txs =>
     match parseNat? num, parseNat? hash, txs.mapM parseTx? with
     | some num, some hash, some txs =>
-      let d := appendBlock db ⟨num, hash, txs⟩
+      let d := appendBlockF bf cf db ⟨num, hash, txs⟩
       (d, showTip d)
     | _, _, _ => (db, "bad-op")
   | "wf" :: num :: hash :: txs =>
@@ -324,7 +336,7 @@ def step (db : DB) (ts : List String) : DB × String :=
       -- `l`: the hypothesis of `rich_rollback_append_partial` (the appended database is ONE layer on
       -- top of the current one) holds whenever the block is well-formed — evaluated on every block
       let wfb := freshTxsB db b && orderB b && noDoubleSpendB db b
-      let l := !wfb || layerCheckB db (appendBlock db b)
+      let l := !wfb || bf ≠ 0 || cf ≠ 0 || layerCheckB db (appendBlock db b)
       (db, s!"wf a={bit (freshTxsB db b)} o={bit (orderB b)} s={bit (noDoubleSpendB db b)} l={bit l}")
     | _, _, _ => (db, "bad-op")
   | ["rollback"] =>
@@ -375,10 +387,17 @@ def step (db : DB) (ts : List String) : DB × String :=
     (db, s!"dump {rows.length} " ++ joinOr " " rows)
   | _ => (db, "bad-op")
 
+def step (st : RSt) (ts : List String) : RSt × String :=
+  match ts with
+  | "config" :: _ :: _ :: rest => ({ db := {}, bf := filterId 'b' rest, cf := filterId 'c' rest }, "ok")
+  | _ =>
+    let r := stepDb st.bf st.cf st.db ts
+    ({ st with db := r.1 }, r.2)
+
 end Rich
 
 def main (args : List String) : IO UInt32 :=
-  if args = ["rich"] then runLines ({} : CkbVerif.Rich.DB) Rich.step
+  if args = ["rich"] then runLines ({} : Rich.RSt) Rich.step
   else runLines ({} : St) step
 
 end CkbVerif.Driver.C18
